@@ -38,6 +38,11 @@ def tone_case(c):
     L = c["fftlength"]; I = c["int_factor"]
     with R.Scratch() as d:
         stem = os.path.join(d, "t")
+        if c.get("second"):
+            # an earlier recording from the same source and backend: the one examined is the second
+            R.record(be, os.path.join(d, "first"), c, header_dict={})
+            bps = 2 * c["num_pols"] * c["nbits"] // 8
+            res["t_offset"] = c.get("num_blocks", 1) * (c["block_size"] // (c["nants"] * c["nchans"] * bps)) * c["nb"] / c["sample_rate"]
         R.record(be, stem, c, header_dict={} if not c.get("directio") else {"DIRECTIO": 1})
         f0 = R.list_files(stem)[0]
         buf = open(f0, "rb").read()
